@@ -43,11 +43,8 @@ func (s *Shard) MarkGarbage(cnr cid.ID, addrs []oid.ID, mark meta.GarbageMark) e
 	s.addToContainerSize(cnrStr, inhumed.PayloadDiff)
 	s.addToPayloadCounter(inhumed.PayloadDiff)
 
-	if mark == meta.GarbageMarkDefault && s.hasWriteCache() {
-		for i := range addrs {
-			_ = s.writeCache.Delete(oid.NewAddress(cnr, addrs[i]))
-		}
-	}
+	// The data stays where it is (in the write-cache too) until GC removes the
+	// object along with its metadata: the mark can still be taken back.
 
 	return nil
 }
